@@ -171,27 +171,20 @@ class QintImp(int, Qtype):
         (x << 3) + (x << 1) # Here 10*x is computed as x*2^3 + x*2
         """
 
-        # Multiply t_num by the nearest n | 2**n < t_const
-        n = 1
-        while 2**n <= const:
-            n += 1
-        if 2**n > const:
-            n -= 1
-
+        # Sum t_num << k for every set bit k of the constant
         result_ttype = cast(TType, result_type)
+        res = None
+        k = 0
+        while 2**k <= const:
+            if (const >> k) & 1:
+                shifted = result_type.fill(
+                    result_type.shift_left((result_ttype, t_num[1]), k)
+                )
+                res = shifted if res is None else result_type.add(res, shifted)
+            k += 1
 
-        t_num_r = result_type.shift_left((result_ttype, t_num[1]), n)
-
-        # Shift t_const by t_const - 2**n
-        r = const - 2**n
-        if r > 0:
-            # Add the shift result to t_num
-            res = result_type.add(
-                (result_ttype, t_num_r[1]),
-                result_type.shift_left((result_ttype, t_num[1]), int(r / 2)),
-            )
-        else:
-            res = (result_ttype, t_num_r[1])
+        if res is None:  # const == 0
+            res = result_type.const(0)
 
         return res
 
